@@ -50,9 +50,18 @@ def ka_lifespan_histories(rng, n):
         for k in range(rng.randint(2, 4)):
             ops.append({'op': rng.choice(['map', 'map_unordered', 'imap', 'imap_unordered']), 'n': rng.randint(1, max(1, (L - 1) * nj)), 'chunk_size': c,
                         'elem': 'scalar', 'worker_lifespan': L, 'dur': {'kind': 'hash', 'salt': rng.randint(0, 99), 'unit': 0.005}})
+        same = rng.random() < .3
+        if rng.random() < .35:
+            # apply tasks on the kept-alive workers (which keep the lifespan of the latest map call), some or all of them raising: a
+            # task that fails is a task all the same
+            k = rng.randint(L, 3 * L)
+            failing = [i for i in range(k) if rng.random() < rng.choice([.3, 1.0])]
+            ops.insert(rng.randint(1, len(ops)), {'op': 'apply_batch', 'tasks': [{'idx': i} for i in range(k)], 'get_timeout': 30, 'fail': {'at': failing},
+                                                   'dur': {'kind': 'map', 'map': {}, 'default': 0.005}})
+            same = False
         ops.append({'op': 'stop_and_join'})
         scs.append({'seed': rng.randint(0, 10 ** 6), 'pool': {'n_jobs': nj, 'start_method': rng.choice(['fork', 'threading']), 'keep_alive': True},
-                    'ops': ops, 'same_func': rng.random() < .3, 'relax_shape': True, 'L': L, 'c': c})
+                    'ops': ops, 'same_func': same, 'relax_shape': True, 'L': L, 'c': c})
     return scs
 
 
